@@ -114,23 +114,31 @@ ITempl = instrument(templ.TemplateHandler, "loaded")
 # ------------------------------------------------------------------------------------
 # include graphs as files
 
-GRAPHS = ["single", "chain", "diamond", "missing_leaf", "unparsable_leaf"]
+GRAPHS = ["single", "chain", "diamond", "missing_leaf", "unparsable_leaf", "twins"]
 
 
-def make_graph(kind, root):
-    """Writes the files; returns dict name -> url (and which are loadable)."""
+def make_graph(kind, root, escaped=False):
+    """Writes the files; returns dict name -> url (and which are loadable).
+
+    ``escaped``: the files live in a directory whose name needs percent escapes in a URL
+    (a blank, an umlaut) and the URLs are written the way ``pathname2url`` writes them."""
+    if escaped:
+        root = os.path.join(root, u"my templ\u00e4tes")
     os.makedirs(root, exist_ok=True)
 
     def url(name):
+        if escaped:
+            from urllib.request import pathname2url
+            return "file://" + pathname2url(os.path.join(root, name + ".xml"))
         return "file://" + os.path.join(root, name + ".xml")
 
     def save(name, doc):
         odml.tools.xmlparser.XMLWriter(doc).write_file(os.path.join(root, name + ".xml"))
 
-    def leaf():
+    def leaf(values=(1, 2, 3)):
         d = odml.Document(author="D")
         s = odml.Section(name="dsec", type="leaf", parent=d)
-        odml.Property(name="dp", values=[1, 2, 3], parent=s)
+        odml.Property(name="dp", values=list(values), parent=s)
         odml.Section(name="dsub", type="t", parent=s)
         return d
 
@@ -142,6 +150,21 @@ def make_graph(kind, root):
         return d
 
     urls = {}
+    if kind == "twins":
+        # like the diamond, but the two leaves are different resources whose URLs differ only in the
+        # letter case of a directory
+        for sub, vals in (("Rig", (1, 2, 3)), ("rig", (7, 8, 9))):
+            os.makedirs(os.path.join(root, sub), exist_ok=True)
+            odml.tools.xmlparser.XMLWriter(leaf(vals)).write_file(os.path.join(root, sub, "D.xml"))
+        save("B", mid("B", url("Rig/D"), "/dsec"))
+        save("C", mid("C", url("rig/D"), "/dsec"))
+        a = odml.Document(author="A")
+        s1 = odml.Section(name="a1", type="top", parent=a)
+        s1._include = "%s#/bsec" % url("B")
+        s2 = odml.Section(name="a2", type="top", parent=a)
+        s2._include = "%s#/csec" % url("C")
+        save("A", a)
+        return {"A": url("A"), "B": url("B"), "C": url("C"), "D": url("Rig/D")}
     if kind == "single":
         save("D", leaf())
         urls = {"D": url("D")}
@@ -272,7 +295,8 @@ def run_schedule(graph, urls, program, target, cache, choices, ref):
             age_cache()
         if cache in ("stale_gone", "warm_gone"):
             # the leaf can no longer be fetched; only an outdated (or a still fresh) cache file is left
-            gone = urls["D"][len("file://"):]
+            from urllib.request import url2pathname
+            gone = url2pathname(urls["D"][len("file://"):])
             with open(gone, "rb") as fh:
                 gone_data = fh.read()
             os.remove(gone)
@@ -319,7 +343,7 @@ def run_schedule(graph, urls, program, target, cache, choices, ref):
                         d = odml.Document()
                         sec = odml.Section(name="holder", type="t", parent=d)
                         first = {"A": "asec", "B": "bsec", "D": "dsec"}.get(name, "dsec")
-                        if graph == "diamond" and name == "A":
+                        if graph in ("diamond", "twins") and name == "A":
                             first = "a1"
                         sec.include = "%s#/%s" % (u, first)
                         out.append((op, name, sec, None))
@@ -423,6 +447,18 @@ def run_schedule(graph, urls, program, target, cache, choices, ref):
                     fails.append(failure("load.not_cached", "a later load(%s) returned another object although "
                                          "no refresh happened (schedule %r)" % (name, choices), **loc))
                 loaded[name] = res
+                if graph == "twins" and name == "A" and r[0] == "doc":
+                    # known by construction, not taken from the library: the two branches end in
+                    # different leaves
+                    try:
+                        v1 = res.sections["a1"].properties["dp"].values
+                        v2 = res.sections["a2"].properties["dp"].values
+                    except Exception as exc:
+                        v1, v2 = repr(exc), None
+                    if (v1, v2) != ([1, 2, 3], [7, 8, 9]):
+                        fails.append(failure("load.differs", "load(A): the branches that include .../Rig/D.xml "
+                                             "and .../rig/D.xml hold the values %r and %r, the files hold "
+                                             "[1, 2, 3] and [7, 8, 9]" % (v1, v2), **loc))
     # failed fetches must not touch the cache
     after = cache_files()
     for name, u in urls.items():
@@ -456,7 +492,7 @@ def combos(tier):
                 prog = [(op, "D") for op, _ in prog]
                 if pname in ("P3", "P4", "P9", "P10", "P11"):
                     continue
-            elif "C" in names and graph != "diamond":
+            elif "C" in names and graph not in ("diamond", "twins"):
                 continue
             for target in ("terminology", "templates"):
                 if target == "templates" and pname in ("P6", "P7", "P8", "P12"):
@@ -480,7 +516,8 @@ def run_combo(ctx, combo, bound, limit):
     graph, pname, prog, target, cache = combo
     root = env.fresh_dir("c18")
     try:
-        urls = make_graph(graph, root)
+        # every third combination works on URLs that carry percent escapes
+        urls = make_graph(graph, root, escaped=(sum(map(ord, graph + pname + target + cache)) % 3 == 0))
         ref = reference(urls)
         seen_fail = [0]
 
